@@ -16,6 +16,7 @@ import (
 
 	"verif/harness/gen"
 	gm "verif/harness/gomap"
+	"verif/harness/iox"
 	"verif/harness/pbt"
 	rn "verif/harness/ref/nbt"
 	"verif/harness/ref/wire"
@@ -505,6 +506,30 @@ func c06Check(c C06Case) *pbt.Violation {
 		}
 		rd := bytes.NewReader(stream)
 		dec, cmp := f.decoder()
+		if (i+len(want))%3 == 1 && !lastIsPlugin(f) {
+			// the same through a reader without ReadByte that hands out 1..7 bytes at a time and now and then
+			// nothing at all (0, nil): value, count and consumption must be the same
+			src := iox.NewSrc(stream)
+			src.Plan = []int{1 + (i+len(want))%7}
+			if !hasKind(f, "nbt") {
+				// (the NBT decoder's own byte reader takes an idle Read for a zero byte - outside every listed
+				// property: C09 quantifies over reads of >= 1 byte - so NBT fields get fragmentation only)
+				src.Idle = 2 + (i+len(want))%3
+			}
+			dec2, cmp2 := f.decoder()
+			var n2 int64
+			var err2 error
+			if pv, stack := pbt.Try(func() { n2, err2 = dec2.ReadFrom(iox.Plain{R: src}) }); pv != nil {
+				return pbt.V(pbt.PanicKey("c06.read."+kindPath(f), stack), "no panic", "field[%d] %s ReadFrom (plain fragmenting reader) panicked: %v\n%s", i, kindPath(f), pv, stack)
+			}
+			if err2 != nil || n2 != int64(len(want)) || src.Pos != len(want) {
+				return pbt.V("c06.read.plainreader:"+kindPath(f), "ReadFrom consumes exactly the field and counts it (any io.Reader)",
+					"field[%d] %s through a reader delivering %d bytes per Read with every %d-th Read returning (0, nil): n=%d consumed=%d err=%v, field is %d bytes", i, kindPath(f), src.Plan[0], src.Idle, n2, src.Pos, err2, len(want))
+			}
+			if d := cmp2(); d != "" {
+				return pbt.V("c06.read.plainreader.value:"+kindPath(f), "reading back yields an equal value (any io.Reader)", "field[%d] %s: %s", i, kindPath(f), d)
+			}
+		}
 		if pv, stack := pbt.Try(func() { n, err = dec.ReadFrom(rd) }); pv != nil {
 			return pbt.V(pbt.PanicKey("c06.read."+kindPath(f), stack), "no panic regardless of the destination's prior state",
 				"field[%d] %s ReadFrom (pre-state %s, spare cap %d) panicked: %v\n%s", i, kindPath(f), preDesc(f), f.SpareCap, pv, stack)
@@ -575,6 +600,19 @@ func c06Check(c C06Case) *pbt.Violation {
 		}
 	}
 	return nil
+}
+
+// hasKind reports whether f or anything nested in it is of kind k.
+func hasKind(f F, k string) bool {
+	if f.K == k || f.EK == k {
+		return true
+	}
+	for _, e := range f.El {
+		if hasKind(e, k) {
+			return true
+		}
+	}
+	return false
 }
 
 func lastIsPlugin(f F) bool {
